@@ -57,6 +57,8 @@ package freelist
 //@   ensures [safe] forall p common.Pgid :: gfree[ifaceref(t.Interface)][p] && !old(gfree[ifaceref(t.Interface)][p]) ==> (exists wt common.Txid :: wt <= txid && old(inpend(t, wt, p)))
 //@   ensures [complete] forall tid common.Txid, j int :: tid <= txid && old(has(t.pending, tid)) && 0 <= j && j < old(len(t.pending[tid].ids)) ==> gfree[ifaceref(t.Interface)][old(t.pending[tid].ids[j])]
 //@   ensures [freekept] forall p common.Pgid :: old(gfree[ifaceref(t.Interface)][p]) ==> gfree[ifaceref(t.Interface)][p]
+//@   ensures [rep] old(reppend(t)) ==> reppend(t)
+//@   ensures [sep] old(seppend(t)) ==> seppend(t)
 //@   modifies gfree, mapof(t.pending), all("array.ids"), all("hashMap.freePagesCount"), allmaps("uint64", "freelist.pidSet"), allmaps("common.Pgid", "uint64")
 //@   loop 0 invariant [dom] forall tid common.Txid :: has(t.pending, tid) == (old(has(t.pending, tid)) && !(visited(tid) && tid <= txid))
 //@   loop 0 invariant [vals] forall tid common.Txid :: old(has(t.pending, tid)) ==> t.pending[tid] == old(t.pending[tid])
@@ -104,6 +106,33 @@ package freelist
 //@   loop 1 invariant [mfresh] fresh(arrayof(m)) && len(m) >= 0
 //@   loop 1 invariant [readers] readerssame(t)
 //@   loop 1 invariant [cur] begin <= tid && tid <= end && has(t.pending, tid) && t.pending[tid] == txp
+
+//@ func (txIDx).Less
+//@   props C09 C02
+//@   requires 0 <= i && i < len(t) && 0 <= j && j < len(t)
+//@   ensures result == (t[i] < t[j])
+//@   modifies nothing
+
+// The safety theorem of the allocator's release rule (C02/C09): a page that becomes free was freed by a
+// transaction (gpend) and allocated by a transaction (galloc, 0 = unknown) such that NO registered reader r
+// has galloc(p) <= r < gpend(p), i.e. no registered reader's snapshot can contain it.
+//@ func (*shared).ReleasePendingPages
+//@   props C09 C02 C10
+//@   requires reppend(t) && seppend(t)
+//@   requires forall r common.Txid :: isreader(t, r) ==> r < 18446744073709551615
+//@   ensures [rep] reppend(t) && seppend(t)
+//@   ensures [safe] forall p common.Pgid, r common.Txid :: gfree[ifaceref(t.Interface)][p] && !old(gfree[ifaceref(t.Interface)][p]) && old(isreader(t, r)) ==> !(galloc(p) <= r && r < gpend(p))
+//@   ensures [freekept] forall p common.Pgid :: old(gfree[ifaceref(t.Interface)][p]) ==> gfree[ifaceref(t.Interface)][p]
+//@   ensures [readers] len(t.readonlyTXIDs) == old(len(t.readonlyTXIDs)) && (forall r common.Txid :: isreader(t, r) == old(isreader(t, r)))
+//@   modifies gfree, mapof(t.pending), all("txPending.ids"), all("txPending.alloctx"), all("txPending.lastReleaseBegin"), allelems("common.Pgid"), allelems("common.Txid"), all("array.ids"), all("hashMap.freePagesCount"), allmaps("uint64", "freelist.pidSet"), allmaps("common.Pgid", "uint64")
+//@   loop 0 invariant [rep] reppend(t) && seppend(t)
+//@   loop 0 invariant [hdr] t.Interface == old(t.Interface) && len(t.readonlyTXIDs) == old(len(t.readonlyTXIDs)) && arrayof(t.readonlyTXIDs) == old(arrayof(t.readonlyTXIDs)) && offof(t.readonlyTXIDs) == old(offof(t.readonlyTXIDs))
+//@   loop 0 invariant [sorted] forall a int, b int :: 0 <= a && a <= b && b < len(t.readonlyTXIDs) ==> t.readonlyTXIDs[a] <= t.readonlyTXIDs[b]
+//@   loop 0 invariant [bound] forall a int :: 0 <= a && a < len(t.readonlyTXIDs) ==> t.readonlyTXIDs[a] < 18446744073709551615
+//@   loop 0 invariant [perm] (forall r common.Txid :: isreader(t, r) == old(isreader(t, r)))
+//@   loop 0 invariant [minid] (rangeindex == 0-1 ==> minid == (len(t.readonlyTXIDs) > 0 ? t.readonlyTXIDs[0] : 18446744073709551615)) && (rangeindex >= 0 ==> minid == t.readonlyTXIDs[rangeindex] + 1)
+//@   loop 0 invariant [safe] forall p common.Pgid, a int :: gfree[ifaceref(t.Interface)][p] && !old(gfree[ifaceref(t.Interface)][p]) && 0 <= a && a < len(t.readonlyTXIDs) ==> !(galloc(p) <= t.readonlyTXIDs[a] && t.readonlyTXIDs[a] < gpend(p))
+//@   loop 0 invariant [freekept] forall p common.Pgid :: old(gfree[ifaceref(t.Interface)][p]) ==> gfree[ifaceref(t.Interface)][p]
 
 //@ func (*shared).Free
 //@   props C09 C06 C07 C01
